@@ -16,6 +16,7 @@ type ProgCase struct {
 	Loaders    []map[string]string
 	Trim       bool
 	LStrip     bool
+	OptLiteral bool // assign set.Options as a struct literal instead of setting its fields (not part of the model request)
 	BanTags    []string
 	BanFilters []string
 	Globals    CtxTerm
@@ -144,8 +145,13 @@ func (c ProgCase) buildSet() (*pongo2.TemplateSet, []*memLoader) {
 		tls = append(tls, ml)
 	}
 	set := pongo2.NewSet("t", tls...)
-	set.Options.TrimBlocks = c.Trim
-	set.Options.LStripBlocks = c.LStrip
+	if c.OptLiteral {
+		// the way a caller outside the package builds options: a struct literal
+		set.Options = &pongo2.Options{TrimBlocks: c.Trim, LStripBlocks: c.LStrip}
+	} else {
+		set.Options.TrimBlocks = c.Trim
+		set.Options.LStripBlocks = c.LStrip
+	}
 	for _, t := range c.BanTags {
 		set.BanTag(t)
 	}
